@@ -32,6 +32,8 @@ struct ReqState {
     /// multi-packet answers: packets still expected after the first one
     remaining: Option<u64>,
     terminal: bool,
+    /// when the terminal outcome was observed
+    t_terminal: Option<u64>,
     node: usize,
     to_addr: Option<SocketAddr>,
     t_submit: u64,
@@ -65,6 +67,7 @@ pub struct Outcomes {
     delivered: HashMap<(usize, SocketAddr, RequestId), (u64, u64)>,
     seen_events: usize,
     seen_inj: usize,
+    single_request_timeouts: u64,
     // statistics
     overlap_with_fault: bool,
     faults: Vec<String>,
@@ -145,6 +148,7 @@ impl Oracle for Outcomes {
                     // different totals.)
                     if k <= 1 {
                         st.terminal = true;
+                        st.t_terminal = Some(e.t_ms);
                     } else {
                         match st.remaining {
                             None => st.remaining = Some(k - 1),
@@ -153,6 +157,7 @@ impl Oracle for Outcomes {
                                 st.remaining = Some(r);
                                 if r == 0 {
                                     st.terminal = true;
+                                    st.t_terminal = Some(e.t_ms);
                                 }
                             }
                         }
@@ -175,6 +180,7 @@ impl Oracle for Outcomes {
                     }
                     st.fail += 1;
                     st.terminal = true;
+                    st.t_terminal = Some(e.t_ms);
                     if matches!(err, RequestError::Timeout) {
                         self.timeouts += 1;
                         // --- timeouts are earned
@@ -197,6 +203,37 @@ impl Oracle for Outcomes {
                                 let (cnt, total) = self.delivered.get(&(e.node, peer, id.clone())).copied().unwrap_or((0, 1));
                                 cnt < total
                             });
+                            // refinement for the simplest situation: this is the ONLY request this node has
+                            // towards that peer at the time, and it was (re)sent inside a handshake packet at time th (the
+                            // WHOAREYOU answered the first packet, so the request proper only went out then):
+                            // the time-out counts from th
+                            // ("only": every other request of this node to that peer had its outcome before this one
+                            // was submitted, and the handler never had an internal request to that peer)
+                            let alone = !self.reqs.iter().any(|((n, qid), r)| *n == e.node && qid != id && r.to_addr == Some(peer) && r.t_terminal.map(|tt| tt >= st.t_submit).unwrap_or(true))
+                                && !self.first_seen.iter().any(|((n, a, qid), (_, internal))| *n == e.node && *a == peer && qid != id && *internal);
+                            if alone {
+                                let th = w
+                                    .log
+                                    .iter()
+                                    .filter(|d| d.from_node == Some(e.node) && d.to_addr == peer && matches!(d.decoded.as_ref().map(|p| &p.0.kind), Some(PacketKind::Handshake { .. })))
+                                    .filter(|d| matches!(decrypt(d, &w.keys_seen[e.node]), Some((Message::Request(r), _)) if r.id == *id))
+                                    .map(|d| d.t_ms)
+                                    .max();
+                                if let Some(th) = th {
+                                    self.single_request_timeouts += 1;
+                                    if t + slack < th + REQUEST_TIMEOUT_MS {
+                                        return Some((
+                                            "timeout/not-earned".into(),
+                                            format!(
+                                                "node {}: request {id} to {peer} - the only one outstanding towards that peer - went out inside a handshake packet at {th} ms and was reported Timeout at {t} ms, {} ms later (request time-out {} ms)",
+                                                e.node,
+                                                t.saturating_sub(th),
+                                                REQUEST_TIMEOUT_MS
+                                            ),
+                                        ));
+                                    }
+                                }
+                            }
                             if !earned {
                                 return Some((
                                     "timeout/not-earned".into(),
